@@ -83,9 +83,9 @@ struct Live {
             RegisterArea &ra = areas[i];
             ra.flags = (uint16_t)((a.readable ? REG_AF_READABLE : 0) | (a.writeable ? REG_AF_WRITEABLE : 0) | (a.skip_defaults ? REG_AF_SKIP_DEFAULTS : 0));
             ra.base = a.base; ra.size = a.size;
-            if (a.membacked) { ra.read = reg_mem_read; ra.write = a.has_write ? reg_mem_write : nullptr; ra.mem = mem; }
+            if (a.membacked) { ra.read = a.has_read ? reg_mem_read : nullptr; ra.write = a.has_write ? reg_mem_write : nullptr; ra.mem = mem; }
             else {
-                ra.read = vp_cb_read; ra.write = a.has_write ? vp_cb_write : nullptr; ra.mem = nullptr; cbstores().push_back({&ra, mem, a.size});
+                ra.read = a.has_read ? vp_cb_read : nullptr; ra.write = a.has_write ? vp_cb_write : nullptr; ra.mem = nullptr; cbstores().push_back({&ra, mem, a.size});
                 // every other callback-backed area also carries a `mem` pointer of its own (a shadow copy the application keeps, holding other
                 // content): the area's words are what its callbacks say, the library has no business reading them from anywhere else
                 if ((a.base ^ a.size) & 1) { uint16_t *decoy = (uint16_t *)malloc((a.size ? a.size : 1) * sizeof(uint16_t)); for (uint32_t k = 0; k < a.size; k++) decoy[k] = (uint16_t)(0x7e00 + 3 * k); decoys.push_back(decoy); ra.mem = decoy; }
